@@ -130,17 +130,41 @@ def rule_M1(repo: Repo) -> RuleResult:
 
 
 def _m1_kernel(f: Func, res: RuleResult):
-    """reduce_array_pair: count := counts[i] (1 only without counts); skip where y_counts[i] == 0"""
-    txt = [norm(s) for s in ast.walk(f.node) if isinstance(s, ast.stmt)]
-    ok_count = any(t == "count = counts[i]" for t in txt)
-    skip = [n for n in ast.walk(f.node) if isinstance(n, ast.If) and "y_counts[i] == 0" in norm(n.test)
-            and any(isinstance(s, ast.Continue) for s in n.body)]
+    """reduce_array_pair(x, y, reducer, counts, y_counts): the reducer is given counts[i] as its count (a constant only where
+    no counts were passed); the row is skipped where y_counts[i] == 0.  Parameters are taken by position, locals by dataflow."""
+    ps = f.named_params
+    if len(ps) < 5:
+        raise AnalysisError("M1: reduce_array_pair no longer has the (x, y, reducer, counts, y_counts) signature")
+    reducer_p, counts_p, ycounts_p = ps[2], ps[3], ps[4]
+    loops = [n for n in walk_no_nested(f.node) if isinstance(n, ast.For)]
+    if not loops or not isinstance(loops[0].target, ast.Name):
+        raise AnalysisError("M1: row loop of reduce_array_pair not found")
+    i = loops[0].target.id
+
+    def is_cell(e, arr):
+        return isinstance(e, ast.Subscript) and isinstance(e.value, ast.Name) and e.value.id == arr \
+            and isinstance(e.slice, ast.Name) and e.slice.id == i
+
+    # locals assigned counts[i]
+    from_counts = {t.id for n in ast.walk(loops[0]) if isinstance(n, ast.Assign) and is_cell(n.value, counts_p)
+                   for t in n.targets if isinstance(t, ast.Name)}
+    calls = [c for c in ast.walk(loops[0]) if isinstance(c, ast.Call) and isinstance(c.func, ast.Name) and c.func.id == reducer_p]
+    if not calls:
+        raise AnalysisError("M1: reduce_array_pair no longer applies the reducer in its row loop")
+    ok_count = True
+    for c in calls:
+        cnt = next((k.value for k in c.keywords if k.arg == "count"), c.args[2] if len(c.args) >= 3 else None)
+        if not (cnt is not None and (is_cell(cnt, counts_p) or (isinstance(cnt, ast.Name) and cnt.id in from_counts))):
+            ok_count = False
+    skip = [n for n in ast.walk(loops[0]) if isinstance(n, ast.If) and any(isinstance(s_, ast.Continue) for s_ in n.body)
+            and any(isinstance(t, ast.Compare) and len(t.ops) == 1 and isinstance(t.ops[0], ast.Eq) and is_cell(t.left, ycounts_p)
+                    and isinstance(t.comparators[0], ast.Constant) and t.comparators[0].value == 0 for t in ast.walk(n.test))]
     if ok_count:
         res.ok(f, f.node, "reduce_array_pair: count = counts[i]", "the reducer sees the accumulated count of the left side")
     else:
         res.bad(f, f.node, "reduce_array_pair: count", "the reducer is no longer given counts[i]")
     if skip:
-        res.ok(f, skip[0], "reduce_array_pair: " + norm(skip[0].test) + " -> continue", "empty right partial leaves the accumulator untouched")
+        res.ok(f, skip[0], "reduce_array_pair: y_counts[i] == 0 -> continue", "empty right partial leaves the accumulator untouched")
     else:
         res.bad(f, f.node, "reduce_array_pair: empty right partial",
                 "the merge kernel no longer skips a right partial whose count is zero")
